@@ -159,6 +159,9 @@ func propC15(c *Ctx, r *Report) {
 	r.Clauses = append(r.Clauses, indexLenClause)
 	c.runIndexLen(r, "shape.indexlen", inPkgs("msl", "hlsl", "glsl", "spirv"))
 	r.floor("shape.indexlen", 5)
+	r.Clauses = append(r.Clauses, guardAgreeClause+" - the workgroup zero-initialisation prologue is keyed on the recorded local_invocation_id")
+	c.runGuardAgree(r, "guard.agree", inPkgs("msl", "hlsl", "glsl", "spirv"))
+	r.floor("guard.agree", 4)
 	r.floor("spirv.Block.walkers", 3)
 	r.floor("routing.index-sites", 3)
 	r.floor("hardened.ops", 6)
